@@ -131,6 +131,17 @@ mod s {
     pub fn cut(reason: &'static str) -> ! {
         sym::cut(reason)
     }
+    /// exact value of a term at concrete operands (numerics self-test)
+    pub fn value_of(x: V, env: &[(&str, u128)]) -> String {
+        let m: std::collections::HashMap<String, I> = env.iter().map(|(n, val)| (n.to_string(), I::from(*val))).collect();
+        match sym::eval(x, &m) {
+            Some(i) => i.to_string(),
+            None => "undefined".into(),
+        }
+    }
+    pub fn u64_of_v(x: V) -> U64 {
+        SymU64(x)
+    }
 }
 
 #[cfg(not(feature = "sym"))]
@@ -342,6 +353,12 @@ mod c {
     pub fn cut(reason: &'static str) -> ! {
         REPLAY.with(|r| r.borrow_mut().notes.push(format!("cut:{}", reason)));
         std::panic::panic_any(AssumeFailed)
+    }
+    pub fn value_of(x: V, _env: &[(&str, u128)]) -> String {
+        x.to_string()
+    }
+    pub fn u64_of_v(x: V) -> U64 {
+        u64::try_from(x).expect("u64 range")
     }
 }
 
